@@ -58,6 +58,37 @@ claim('C20', 'exhaustive enumeration of operator x operand pair x operand shape 
       'skipped (the bare expression does not terminate). hash() and bool() are not part of the statement.',
       'DESIGN.md 5 C20')
 
+HIST_NOTE = ('Trusts the reference model named in the text and the canonical state key (model state + hidden implementation state read through '
+             'getattr probes; an unknown hidden state is never merged). Bounds are the operation alphabet, the row/key universe and the depth '
+             'given in evidence coverage.bounds; longer histories and larger grids are not covered.')
+claim('C10', 'explicit-state BFS over entry-path histories on the real Grid with a gating invariant; exhaustive agreement matrix over deciders',
+      'Breadth-first search over histories of all 13 entry paths x 7 value kinds from 154 roots (7 declared versions x constructor variants) on a '
+      'real Grid: after every step the gating invariant (explicit pre-3.0 version => ValueError and no 3.0-only value reachable; no version given '
+      '=> reports >= 3.0 as soon as one is reachable) and both writers (refuse with ValueError or declare >= 3.0) are evaluated; plus the complete '
+      'matrix 6 versions x 7 kinds x 7 deciders (Grid, ZINC/JSON writer, ZINC/JSON grid reader, ZINC/JSON scalar reader) who must all refuse '
+      'exactly when the declared version is below 3.0.',
+      HIST_NOTE, 'DESIGN.md 5 C10')
+claim('C14', 'explicit-state BFS over operation histories on the real Grid in lock-step with a Python list',
+      'Every operation of the MutableSequence alphabet (append, insert at -3..3, +=, extend incl. generators and a non-dict in the middle, item '
+      'assignment, del index/slice, pop, remove, reverse, clear, id lookups as state-changing reads) applied to every reachable state of a real '
+      'Grid of <= 3 rows over a row universe with/without ids, duplicate ids and non-dict rows, including grids derived by slicing and filtering; '
+      'after every step len, iteration, g[i] for in- and out-of-range i, slices (rows and carried version/metadata/columns), membership and the '
+      'operation\'s own return value/exception class are compared with a plain list holding the same row objects.',
+      HIST_NOTE, 'DESIGN.md 5 C14')
+claim('C15', 'explicit-state BFS over operation histories on the real Grid; id lookups compared with a scan of the current rows',
+      'Same histories as C14 over rows whose ids are str, int, Ref (with and without display), duplicated or absent; after every step grid[key] and '
+      'grid.get(key, default) for every key of the universe (and an absent one) must return a row that is currently in the grid with str(id) == '
+      'str(key), or KeyError/default when there is none - never a removed row, never another exception. The hidden id index (None / content incl. '
+      'stale entries) is part of the state key.',
+      HIST_NOTE, 'DESIGN.md 5 C15')
+claim('C16', 'explicit-state BFS to the fixpoint over operation histories on real SortableDict/MetadataObject vs a list-of-pairs model',
+      'All operations (item store, add_item with every index 0..5 and every pos_key incl. an unknown one x after x replace, both index and pos_key, '
+      'delete, pop, pop_at, sort, reverse, clear, MetadataObject append/extend) applied to every reachable state over 4 keys until no new state '
+      'appears: keys unique, len, ordered items, at/value_at/index/get/in, return values, and a rejected operation changes nothing. The complete '
+      'reachable state space inside the key/value alphabet is covered, so every state is also a non-initial start.',
+      HIST_NOTE + ' Index relocation accepts both readings of "index"; pos_key == key only requires right content and order of the other keys.',
+      'DESIGN.md 5 C16')
+
 
 def main():
     props = [json.loads(l) for l in open(os.path.join(HERE, 'properties.jsonl'))]
